@@ -700,12 +700,12 @@ def run(ctx: Ctx):
     cases += list(grid_cases(ctx))
     ctx.extra["exhaustive_grid"] = "R in {2,3} x G in {1,2} x tree/chain x all (TS2,TS5) tie patterns" + \
         (" (R3xG2 sampled)" if ctx.quick() else "")
-    for _ in range(ctx.n(250, 4000)):
+    for _ in range(ctx.n(400, 4000)):
         cases.append(random_synthetic(ctx.rng, malformed=False))
-    for _ in range(ctx.n(350, 6000)):
+    for _ in range(ctx.n(600, 6000)):
         cases.append(random_synthetic(ctx.rng, malformed=True))
     scen = special_specs(ctx.rng)
-    for _ in range(ctx.n(60, 800)):
+    for _ in range(ctx.n(140, 800)):
         scen.append(random_spec(ctx.rng))
     cases += scen
 
@@ -728,7 +728,7 @@ def run(ctx: Ctx):
 
     # paired runs (oracle only): epoch shift of one rank, stage level for every multi-rank scenario, e2e for a sample
     multi = [s for s in scen if s["R"] >= 2 and s.get("wellformed") and s.get("only_ranks") is None]
-    n_e2e = ctx.n(25, 300)
+    n_e2e = ctx.n(60, 300)
     for k, spec in enumerate(multi):
         r = ctx.rng.randrange(spec["R"])
         K = ctx.rng.choice([512 * ctx.rng.randrange(1, 1 << 20), ctx.rng.randrange(1, 1 << 30), -512 * ctx.rng.randrange(1, 1000)])
